@@ -8,7 +8,8 @@
 EXTENDS GlomTrace
 
 CONSTANTS MaxDepth, SecondDepth, MaxLeaves,
-          Rich      \* TRUE: all leaf / composite kinds; FALSE: the core kinds only (used for the deeper universe)
+          Rich,     \* TRUE: all leaf / composite kinds; FALSE: the core kinds only (used for the deeper universe)
+          Alien     \* TRUE: a failing leaf raises either a GlomError or an exception of a foreign class
 
 Leafs == {N("new", "", <<>>), N("same", "", <<>>)} \cup (IF Rich THEN {N("copy", "", <<>>), N("smiss", "", <<>>)} ELSE {})
 Bin == {"tup", "pipe", "dict", "coal", "or", "and", "switch"} \cup (IF Rich THEN {"coalskip"} ELSE {})
@@ -20,7 +21,7 @@ Trees(d) ==
              \cup {N("fill", "", <<a>>) : a \in S}
 
 Lazy(a) == N("pipe", "", <<N("iter", "", <<a>>), N("consume", "", <<>>)>>)
-Plans == UNION {[1..m -> {"ok", "err"}] : m \in 0..MaxLeaves}
+Fates == IF Alien THEN {"ok", "err", "alien"} ELSE {"ok", "err"}
 \* a plan is canonical when it is exactly as long as the number of leaf executions it drives
 VARIABLES tree, plan, res, phase
 vars == <<tree, plan, res, phase>>
@@ -34,7 +35,7 @@ Outcome(t, p) ==
   ELSE LET fr == r.st.frames
            lines == TraceLines(fr, r.e)
            n == TraceN(fr, r.e)
-       IN [out |-> "err", used |-> r.st.leaf, org |-> fr[r.org].path, rootn |-> r.st.errs[r.e].n,
+       IN [out |-> "err", used |-> r.st.leaf, org |-> fr[r.org].path, rootn |-> r.st.errs[r.e].n, rootglom |-> r.st.errs[r.e].glom,
            lines |-> [i \in 1..Len(lines) |->
                         [d |-> lines[i].d, kind |-> lines[i].kind, marks |-> lines[i].marks,
                          path |-> fr[lines[i].f].path, tgt |-> fr[lines[i].f].tgt,
@@ -59,7 +60,7 @@ PickTree ==
 \* covers (uncovered leaves succeed), it fixes the fate of the next one
 Decide ==
   /\ phase = 1 /\ res.used > Len(plan) /\ Len(plan) < MaxLeaves
-  /\ \E o \in {"ok", "err"} : plan' = Append(plan, o)
+  /\ \E o \in Fates : plan' = Append(plan, o)
   /\ res' = Outcome(tree, plan')
   /\ UNCHANGED <<tree, phase>>
 Next == PickTree \/ Decide
